@@ -145,7 +145,7 @@ Lemma set_okd : forall T n d, okd n d = true ->
   exists w, col_set orc T d = Ok w /\ encode_f orc n w = encode_f orc n d.
 Proof.
   intros T n d Hd.
-  destruct T; destruct d; try discriminate Hd; cbn [col_set numeric_set choicelist_set ref_cleanup reflist_cleanup reflist_pre bool_set py_eq_small];
+  destruct T; destruct d; try discriminate Hd; cbn [col_set numeric_set choicelist_set ref_cleanup reflist_cleanup bool_set py_eq_small];
     try (eexists; split; reflexivity).
   destruct l as [|x l]; [eexists; split; [reflexivity|apply encode_nil_tuple]|].
   destruct n; [discriminate Hd|]. eexists; split; [reflexivity|apply encode_list_tuple].
@@ -356,29 +356,29 @@ Proof.
     destruct (f_eq_Z f n && (0 <? n) && is_int_short n) eqn:Ec; [split; reflexivity|].
     split; [reflexivity|cbn [col_set ref_cleanup]; rewrite Et, Ec; reflexivity].
   - (* RefList *)
-    injection Hs as <-. unfold reflist_cleanup.
-    destruct d; try (split; [exact Hp|reflexivity]). destruct sub; [discriminate Hp|]. cbn [reflist_pre].
+    injection Hs as <-.
+    destruct d; try (split; [exact Hp|reflexivity]). destruct sub; [discriminate Hp|]. cbn [reflist_cleanup].
     destruct (starts_with (Str "[") s) eqn:Es.
     + destruct (o_json_loads orc s) as [j|] eqn:Ej;
-        [|split; [reflexivity|cbn [col_set]; unfold reflist_cleanup; cbn [reflist_pre]; rewrite Es, Ej; reflexivity]].
-      destruct j; try (split; [reflexivity|cbn [col_set]; unfold reflist_cleanup; cbn [reflist_pre]; rewrite Es, Ej; reflexivity]).
-      destruct (forallb is_pos_int l) eqn:El; [split; reflexivity|].
-      split; [reflexivity|cbn [col_set]; unfold reflist_cleanup; cbn [reflist_pre]; rewrite Es, Ej, El; reflexivity].
+        [|split; [reflexivity|cbn [col_set reflist_cleanup]; rewrite Es, Ej; reflexivity]].
+      destruct j; try (split; [reflexivity|cbn [col_set reflist_cleanup]; rewrite Es, Ej; reflexivity]).
+      destruct (forallb is_pos_short_int l) eqn:El; [split; reflexivity|].
+      split; [reflexivity|cbn [col_set reflist_cleanup]; rewrite Es, Ej, El; reflexivity].
     + destruct (reclist_from_repr orc s) as [rl|] eqn:Er.
       * apply (Grist.Proofs.Values_proofs.reclist_from_repr_ints orc) in Er as [l [-> _]]. split; reflexivity.
-      * split; [reflexivity|cbn [col_set]; unfold reflist_cleanup; cbn [reflist_pre]; rewrite Es, Er; reflexivity].
+      * split; [reflexivity|cbn [col_set reflist_cleanup]; rewrite Es, Er; reflexivity].
   - (* Attachments *)
-    injection Hs as <-. unfold reflist_cleanup.
-    destruct d; try (split; [exact Hp|reflexivity]). destruct sub; [discriminate Hp|]. cbn [reflist_pre].
+    injection Hs as <-.
+    destruct d; try (split; [exact Hp|reflexivity]). destruct sub; [discriminate Hp|]. cbn [reflist_cleanup].
     destruct (starts_with (Str "[") s) eqn:Es.
     + destruct (o_json_loads orc s) as [j|] eqn:Ej;
-        [|split; [reflexivity|cbn [col_set]; unfold reflist_cleanup; cbn [reflist_pre]; rewrite Es, Ej; reflexivity]].
-      destruct j; try (split; [reflexivity|cbn [col_set]; unfold reflist_cleanup; cbn [reflist_pre]; rewrite Es, Ej; reflexivity]).
-      destruct (forallb is_pos_int l) eqn:El; [split; reflexivity|].
-      split; [reflexivity|cbn [col_set]; unfold reflist_cleanup; cbn [reflist_pre]; rewrite Es, Ej, El; reflexivity].
+        [|split; [reflexivity|cbn [col_set reflist_cleanup]; rewrite Es, Ej; reflexivity]].
+      destruct j; try (split; [reflexivity|cbn [col_set reflist_cleanup]; rewrite Es, Ej; reflexivity]).
+      destruct (forallb is_pos_short_int l) eqn:El; [split; reflexivity|].
+      split; [reflexivity|cbn [col_set reflist_cleanup]; rewrite Es, Ej, El; reflexivity].
     + destruct (reclist_from_repr orc s) as [rl|] eqn:Er.
       * apply (Grist.Proofs.Values_proofs.reclist_from_repr_ints orc) in Er as [l [-> _]]. split; reflexivity.
-      * split; [reflexivity|cbn [col_set]; unfold reflist_cleanup; cbn [reflist_pre]; rewrite Es, Er; reflexivity].
+      * split; [reflexivity|cbn [col_set reflist_cleanup]; rewrite Es, Er; reflexivity].
 Qed.
 
 End Coverage.
